@@ -90,6 +90,21 @@ theorem mem_adel (k : κ) (l : List (κ × ν)) (e : κ × ν) (h : e ∈ adel k
     · rcases List.mem_cons.1 h with h | h
       · rw [h]; exact List.mem_cons_self
       · exact List.mem_cons_of_mem _ (ih h)
+theorem mem_aset (k : κ) (v : ν) (l : List (κ × ν)) (e : κ × ν) (h : e ∈ aset k v l) : e = (k, v) ∨ e ∈ l := by
+  induction l with
+  | nil => simp [aset] at h; exact Or.inl h
+  | cons a t ih =>
+    obtain ⟨k'', v''⟩ := a
+    simp only [aset] at h
+    split at h
+    · rcases List.mem_cons.1 h with h | h
+      · exact Or.inl h
+      · exact Or.inr (List.mem_cons_of_mem _ h)
+    · rcases List.mem_cons.1 h with h | h
+      · rw [h]; exact Or.inr List.mem_cons_self
+      · rcases ih h with h | h
+        · exact Or.inl h
+        · exact Or.inr (List.mem_cons_of_mem _ h)
 end assoc
 
 /-- what a round-cache entry must satisfy: it sits under its own id, every cached partial is filed under the index
@@ -247,10 +262,30 @@ theorem append_inv (P : Partial → Prop) (sl : Nat) (c : Cache) (p : Partial) (
         have hr := hg.2 r rfl
         unfold RoundCache.append
         rw [hi]
-        simp only
-        split
-        · exact hg.1
-        · simp only [if_true]
+        have hro := hg.1.2 _ _ hr
+        have hnew : indexOf sl p.psig = some idx ∧ P ⟨p.round, p.prev, p.psig⟩ := ⟨by rw [← h.1]; exact hi, hp⟩
+        cases hsg : aget idx r.sigs with
+        | some x =>
+          cases hrep : c.replace with
+          | false => simp only [hsg, Bool.false_eq_true, if_false]; exact hg.1
+          | true =>
+            simp only [hsg, if_true, Bool.false_eq_true, if_false]
+            refine ⟨hg.1.1, ?_⟩
+            intro id rc hrc
+            simp only at hrc
+            rw [aget_aset] at hrc
+            split at hrc
+            · next hid =>
+              cases hrc
+              subst hid
+              refine ⟨hro.1, ?_⟩
+              intro e hm
+              rcases mem_aset _ _ _ _ hm with hm | hm
+              · rw [hm]; exact hnew
+              · exact hro.2 e hm
+            · exact hg.1.2 _ _ hrc
+        | none =>
+          simp only [hsg, if_true]
           refine ⟨hg.1.1, ?_⟩
           intro id rc hrc
           simp only at hrc
@@ -259,14 +294,13 @@ theorem append_inv (P : Partial → Prop) (sl : Nat) (c : Cache) (p : Partial) (
           · next hid =>
             cases hrc
             subst hid
-            have hro := hg.1.2 _ _ hr
             refine ⟨hro.1, ?_⟩
             intro e hm
             simp only [List.mem_append, List.mem_singleton] at hm
             rcases hm with hm | hm
             · exact hro.2 e hm
             · subst hm
-              exact ⟨by rw [← h.1]; exact hi, hp⟩
+              exact hnew
           · exact hg.1.2 _ _ hrc
 
 theorem flush_inv (P : Partial → Prop) (sl : Nat) (c : Cache) (round : Nat) (h : CInv P sl c) :
@@ -310,15 +344,15 @@ def Node.origin (c : Crypto) (s : Node) : Partial → Prop := Origin c s.seen s.
 
 /-- the aggregator's cache is only ever touched by `Append` and `FlushRounds`, starting from the empty cache: it is a
 state of the cache machine of DrandProofs/C12Cache.lean, so that file's invariants apply to it -/
-def IsRun (sl : Nat) (ca : Cache) : Prop := ∃ ops, ca = Cache.run sl ops
+def IsRun (sl : Nat) (ca : Cache) : Prop := ∃ ops rep, ca = Cache.run sl ops rep
 
 private theorem isRun_append (sl : Nat) (ca : Cache) (p : Partial) (h : IsRun sl ca) : IsRun sl (ca.append p).1 := by
-  obtain ⟨ops, rfl⟩ := h
-  exact ⟨ops ++ [.append p], by simp [Cache.run, Cache.apply, List.foldl_append]⟩
+  obtain ⟨ops, rep, rfl⟩ := h
+  exact ⟨ops ++ [.append p], rep, by simp [Cache.run, Cache.apply, List.foldl_append]⟩
 
 private theorem isRun_flush (sl : Nat) (ca : Cache) (r : Nat) (h : IsRun sl ca) : IsRun sl (ca.flush r) := by
-  obtain ⟨ops, rfl⟩ := h
-  exact ⟨ops ++ [.flush r], by simp [Cache.run, Cache.apply, List.foldl_append]⟩
+  obtain ⟨ops, rep, rfl⟩ := h
+  exact ⟨ops ++ [.flush r], rep, by simp [Cache.run, Cache.apply, List.foldl_append]⟩
 
 structure Inv3 (c : Crypto) (sl : Nat) (ad : String) (ch : Bool) (s : Node) : Prop where
   consts : s.sigLen = sl ∧ s.addr = ad ∧ s.chained = ch
@@ -583,7 +617,7 @@ theorem run_inv3 (c : Crypto) (evs : List Ev) : ∀ s : Node, Inv3 c sl ad ch s 
 theorem init_inv3 (c : Crypto) (chained : Bool) (sigLen : Nat) (addr : String) (key : Nat) (g : GroupView) (seed : Bytes) :
     Inv3 c sigLen addr chained (Node.init chained sigLen addr key g seed) :=
   ⟨⟨rfl, rfl, rfl⟩, List.mem_singleton.2 rfl, fun p hp => (by cases hp), ⟨rfl, fun id rc hrc => (by simp [Node.init, Cache.empty, aget] at hrc)⟩,
-    ⟨[], rfl⟩⟩
+    ⟨[], Gen.replaceSameIndex, rfl⟩⟩
 
 /-! ### the theorems -/
 
@@ -616,9 +650,9 @@ theorem c03_len_counts_distinct (c : Crypto) (chained : Bool) (sigLen : Nat) (ad
     ∀ id rc, aget id s.cache.rounds = some rc → ((rc.sigs.map (·.1)).Nodup ∧ CacheInv s.cache) := by
   intro s id rc hrc
   have hi : Inv3 c sigLen addr chained s := run_inv3 c evs _ (init_inv3 c chained sigLen addr key g seed)
-  obtain ⟨ops, hops⟩ := hi.isRun
+  obtain ⟨ops, rep, hops⟩ := hi.isRun
   rw [hops] at hrc
-  exact ⟨c03_distinct _ ops id rc hrc, by rw [hops]; exact c12_cache_inv _ ops⟩
+  exact ⟨c03_distinct _ ops id rc rep hrc, by rw [hops]; exact c12_cache_inv _ ops rep⟩
 
 /-- what is assumed of `ThresholdScheme.Recover`: if it returns a signature then at least `t` of the supplied partials
 verify under the supplied polynomial for the supplied message, at pairwise distinct indices (kyber: it keeps the first
@@ -856,19 +890,17 @@ theorem c03_wrong_prev_never_counts (c : Crypto) (s : Node) (p : Partial) (pv' :
   | false => rfl
   | true => exact absurd ((c01_digest_binds c s.chained _ _ _ _ hr hr S hcf h1 h2 (hs _ hv)).2 hch) hne
 
-/-- **duplicate / replay**: a second partial from an index already cached for that (round, prev) leaves the whole
-cache — hence every `Len()` — unchanged -/
+/-- **duplicate / replay**: a second partial from an index already cached for that (round, prev) is answered ok and
+leaves every `Len()` unchanged — it still counts once; with "first wins" (`replace = false`) the whole cache is unchanged,
+with "newest wins" only the bytes cached under that index in that round cache change -/
 theorem c03_duplicate_never_counts (ca : Cache) (p : Partial) (idx : Nat) (r : RoundCache) (sg : Bytes)
     (hi : indexOf ca.sigLen p.psig = some idx) (hr : aget (p.round, p.prev) ca.rounds = some r)
-    (hs : aget idx r.sigs = some sg) : (ca.append p).1 = ca ∧ (ca.append p).2 = .ok := by
-  have hg : ca.getCache (p.round, p.prev) p = (ca, .ok r) := by
-    rw [getCache_unfold, hi]
-    simp only [hr, hs, Option.isSome_some, if_true]
-  unfold Cache.append
-  simp only [hi, hg]
-  unfold RoundCache.append
-  simp only [hi, hs]
-  exact ⟨rfl, rfl⟩
+    (hs : aget idx r.sigs = some sg) :
+    (ca.append p).2 = .ok ∧ (ca.replace = false → (ca.append p).1 = ca) ∧
+    ∀ rd pv, (ca.append p).1.roundLen rd pv = ca.roundLen rd pv := by
+  have hso : ca.sigOf (p.round, p.prev) idx = some sg := by unfold Cache.sigOf; rw [hr]; exact hs
+  have := append_duplicate ca p idx sg hi hso
+  exact ⟨this.1, this.2.1, this.2.2.2.1⟩
 
 /-- refused packets never reach the aggregator: the cache changes only through packets that passed admission or are
 the node's own -/
@@ -944,7 +976,8 @@ example : (processPartial toy3 toy3Mid ⟨0, [5], [0, 2, 0]⟩).2 = .past := by 
 example : (processPartial toy3 toy3Mid ⟨2, [5], [0, 2, 1]⟩).2 = .invalid := by decide          -- signed for round 1, sent as round 2
 example : (processPartial toy3 { toyStart true with group := ⟨0, 2, 3, [(0, "a1"), (1, "a0")], 0⟩, nextRound := 2 }
     ⟨1, [5], [0, 0, 1]⟩).2 = .ownIndex := by decide                                           -- listed under another address, but our share index
-/-- replay of the cached packet: the cache does not change -/
+-- replay of the cached packet: the cache does not change (in either variant: the bytes that would replace the cached ones are the same)
+set_option maxRecDepth 10000 in
 example : (toy3Mid.cache.append ⟨1, [5], [0, 1, 1]⟩).1 = toy3Mid.cache := by decide
 example : toy3Mid.cache.roundLen 1 [5] = some 1 := by decide
 
